@@ -370,6 +370,15 @@ func splitSourceRemoved(prog *mrogen.Program, callable, param string) bool {
 func inputBoundByWildcard(prog *mrogen.Program, callable, param string) bool {
 	for _, pl := range prog.Pipelines {
 		for _, c := range pl.Calls {
+			if c.WildcardFrom != nil && c.Callee == callable {
+				// "* = self.x" / "* = CALL": same mechanism, the parameter
+				// is supplied by a member of a struct value
+				for _, b := range c.Bindings {
+					if r, ok := b.E.(mrogen.Ref); ok && b.Param == param && mrogen.IsMemberOf(r, *c.WildcardFrom, b.Param) {
+						return true
+					}
+				}
+			}
 			if !c.WildcardSelf {
 				continue
 			}
